@@ -207,7 +207,8 @@ func spec_size(a *AppendableFile) int64 {
 //@   requires sep: !sameobj(bs, aof)
 //@   ensures count: 0 <= n && n <= len(bs)
 //@   ensures full: err == nil ==> n == len(bs)
-//@   ensures bound: off >= 0 && off <= spec_sz(aof.fileOffset, aof.wbufUnwrittenOffset, aof.wbufFlushedOffset) ==> int64(n) <= spec_sz(aof.fileOffset, aof.wbufUnwrittenOffset, aof.wbufFlushedOffset) - off
+//@   ensures bound_buf: off >= aof.fileOffset && off <= spec_sz(aof.fileOffset, aof.wbufUnwrittenOffset, aof.wbufFlushedOffset) ==> int64(n) <= spec_sz(aof.fileOffset, aof.wbufUnwrittenOffset, aof.wbufFlushedOffset) - off
+//@   ensures bound_file: off >= 0 && off < aof.fileOffset ==> int64(n) <= (aof.fileOffset - off) + int64(aof.wbufUnwrittenOffset - aof.wbufFlushedOffset)
 //@   ensures none: off < 0 || off > spec_sz(aof.fileOffset, aof.wbufUnwrittenOffset, aof.wbufFlushedOffset) ==> n == 0 && err != nil
 //@   ensures same: aof.fileOffset == old(aof.fileOffset) && aof.wbufFlushedOffset == old(aof.wbufFlushedOffset) && aof.wbufUnwrittenOffset == old(aof.wbufUnwrittenOffset) && aof.seekRequired == old(aof.seekRequired) && aof.f == old(aof.f) && aof.readOnly == old(aof.readOnly) && aof.retryableSync == old(aof.retryableSync) && aof.autoSync == old(aof.autoSync) && aof.writeBuffer == old(aof.writeBuffer) && aof.compressionFormat == old(aof.compressionFormat) && aof.closed == old(aof.closed)
 //@   assigns bs
